@@ -59,3 +59,57 @@ func zzH_C11m() {
 	}
 	vReach("end")
 }
+
+// zzH_C11n: the NoCopy twin of C11m. A NoCopy reader accepts that its message aliases a pooled
+// buffer, but two things still have to hold for the message it sees to be the one sent (C01) in
+// every mode (C12): (i) the buffer is not back in the pool while the body codec is still decoding
+// from it — the hook takes a buffer of the same size class from the pool in the middle of the
+// decode, as any concurrent call on the connection may, and scribbles on it; (ii) the buffer goes
+// back to the pool exactly once — two messages queued next, before either is read, must not share
+// a backing array. Both reader modes are driven (vChoose "nocopy").
+func zzH_C11n() {
+	vSetPoolReuse(true)
+	n := 1 + vChoose("msglen", 3) // 1..3
+	st := &stream{noCopy: vChoose("nocopy", 2) == 1}
+	st.cond.L = &st.mut
+	var want []byte
+	intact := true
+	st.unmarshal = func(data []byte, v interface{}) error {
+		other := GetBuffer(n) // concurrent traffic of the same size class during the decode
+		for i := range other {
+			other[i] = ^want[i]
+		}
+		if !vEqBytes(data, want) {
+			intact = false
+		}
+		*v.(*[]byte) = append([]byte(nil), data...) // a copying body codec
+		PutBuffer(other)
+		return nil
+	}
+	push := func(name string, k int) []byte {
+		content := vBytesN(name, k)
+		val := GetBuffer(k)
+		copy(val, content)
+		e := getEvent()
+		e.Value = val
+		st.trigger(e)
+		return content
+	}
+	c1 := push("m1", n)
+	want = c1
+	var msg1 []byte
+	vAssert(st.ReadMessage(nil, &msg1) == nil, "read-ok")
+	vAssert(intact, "buffer-not-pooled-while-decoding")
+	vAssert(vEqBytes(msg1, c1), "message-as-sent")
+	// two messages in flight at once after the first buffer was released
+	c2 := push("m2", n)
+	c3 := push("m3", n)
+	var msg2, msg3 []byte
+	want = c2
+	st.ReadMessage(nil, &msg2)
+	want = c3
+	st.ReadMessage(nil, &msg3)
+	vAssert(intact, "buffer-not-pooled-while-decoding")
+	vAssert(vEqBytes(msg2, c2) && vEqBytes(msg3, c3), "queued-messages-do-not-share-a-buffer")
+	vReach("end")
+}
